@@ -29,7 +29,8 @@
 //!   semi-strict, `fuel` = fuel tracking on (a budget that is never exhausted), `aeh` = auto-escape
 //!   Html for every template; `nest<R>` = the program is rendered inside `R - 1` renders started by a
 //!   Rust function from template code (`fresh(name)` = `state.env().get_template(name)?.render(())`):
-//!   every render is a root with a budget of its own.
+//!   every render is a root with a budget of its own; `stk` = the case is meant for the build with
+//!   minijinja's `stacker` feature (the limit is then not clamped; no effect on the harness).
 //!
 //! Every case runs the REAL engine in a child process (re-exec of this binary, `batch` mode), so
 //! a native stack overflow is observed as the child's death by signal.  Result line:
@@ -867,7 +868,7 @@ fn run_here(shape: &str, limit: usize, budget: i64, mode: &str) -> String {
             root_kind = tok.chars().nth(1).unwrap();
         } else if let Some(r) = tok.strip_prefix("nest") {
             nest_renders = r.parse().unwrap_or(1);
-        } else if !["empty", "deflimit", "dbg", "ubs", "ubc", "ubl", "fuel", "aeh"].contains(&tok) {
+        } else if !["empty", "deflimit", "dbg", "ubs", "ubc", "ubl", "fuel", "aeh", "stk"].contains(&tok) {
             entry_mode = tok;
         }
     }
